@@ -443,3 +443,43 @@ theorem setitemCollNested_spec (td : TD) (items : List Ix) (R : IndexResult) (vb
   | ok p => rfl
 
 end TdVerif.C03
+
+namespace TdVerif.C03
+open TorchSpec Td
+
+theorem any_ell_false_of_noEll (l : List Ix) (h : noEll l = true) : l.any (· = Ix.ell) = false := by
+  induction l with
+  | nil => rfl
+  | cons x r ih =>
+    simp only [noEll_cons, Bool.and_eq_true, bne_iff_ne, ne_eq] at h
+    simp [h.1, ih h.2]
+
+/-- writes through `pre ++ (...,) ++ post` are writes through the converted, Ellipsis-free index (so every write theorem stated
+    for Ellipsis-free tuples applies) -/
+theorem setitem_ellipsis_reduce (td : TD) (pre post : List Ix) (v : Shape)
+    (hpre : noEll pre = true) (hpost : noEll post = true) (hs : specified pre + specified post ≤ td.bs.length) :
+    setitem td (.tuple (pre ++ Ix.ell :: post)) v =
+      setitem td (.tuple (pre ++ List.replicate (td.bs.length - specified pre - specified post) slAll ++ post)) v := by
+  have hany : (pre ++ Ix.ell :: post).any (· = Ix.ell) = true := by simp
+  have hn' := noEll_convert pre post (td.bs.length - specified pre - specified post) hpre hpost
+  have hany' := any_ell_false_of_noEll _ hn'
+  simp only [setitem, hany, if_true, hany', Bool.false_eq_true, if_false,
+    convertEllipsis_one pre post td.bs.length hpre hpost hs]
+
+theorem setitemColl_ellipsis_reduce (td : TD) (pre post : List Ix) (isDict : Bool) (vb : Shape) (entries : List VEntry)
+    (hpre : noEll pre = true) (hpost : noEll post = true) (hs : specified pre + specified post ≤ td.bs.length) :
+    setitemColl td (.tuple (pre ++ Ix.ell :: post)) isDict vb entries =
+      setitemColl td (.tuple (pre ++ List.replicate (td.bs.length - specified pre - specified post) slAll ++ post)) isDict vb entries := by
+  have hany : (pre ++ Ix.ell :: post).any (· = Ix.ell) = true := by simp
+  have hn' := noEll_convert pre post (td.bs.length - specified pre - specified post) hpre hpost
+  have hany' := any_ell_false_of_noEll _ hn'
+  simp only [setitemColl, hany, if_true, hany', Bool.false_eq_true, if_false,
+    convertEllipsis_one pre post td.bs.length hpre hpost hs]
+
+/-- a bare (non-tuple) index other than `...` writes like the 1-tuple holding it -/
+theorem setitem_single (td : TD) (x : Ix) (v : Shape) (hx : x ≠ Ix.ell) :
+    setitem td (.single x) v = setitem td (.tuple [x]) v := by
+  have hany : [x].any (· = Ix.ell) = false := by simp [hx]
+  cases x <;> first | exact absurd rfl hx | simp [setitem, PyIndex.items, checkIndexNdim, bind, Except.bind, pure, Except.pure]
+
+end TdVerif.C03
